@@ -68,7 +68,7 @@ def extract(ctx):
 
     add('Group.glomit', _method(_cls(grp, 'Group'), 'glomit'))
     add('GROUP', ctx['find_def'](grp, 'GROUP'))
-    for c in ('First', 'Avg', 'Max', 'Min'):
+    for c in ('First', 'Avg', 'Max', 'Min', 'Sample'):
         add(c + '.agg', _method(_cls(grp, c), 'agg'))
     add('Limit.glomit', _method(_cls(grp, 'Limit'), 'glomit'))
     add('Limit.__init__', _method(_cls(grp, 'Limit'), '__init__'))
@@ -87,7 +87,7 @@ def extract(ctx):
         for d, src in _stmts(body):
             rows.append(('Fold.glomit[agg]', d, src))
     slots = []
-    for c in ('First', 'Avg', 'Max', 'Min', 'Limit'):
+    for c in ('First', 'Avg', 'Max', 'Min', 'Sample', 'Limit'):
         k = _cls(grp, c)
         val = None
         if k is not None:
@@ -97,4 +97,71 @@ def extract(ctx):
         slots.append((c, val if val is not None else '<none>'))
     return [('GroupFacts', 'Group mode, statement by statement (function, nesting depth, normalised source)',
              [('grpStmts', 'List (String × Nat × String)', rows),
-              ('grpSlots', 'List (String × String)', slots)])]
+              ('grpSlots', 'List (String × String)', slots),
+              ('grpGlobals', 'List (String × String)', _module_state(grp)),
+              ('grpGlobalStmts', 'List String', _global_stmts(grp)),
+              ('tArith', 'List (String × String)', _t_arith(ctx, P))])]
+
+
+def _module_state(tree):
+    """every module-level binding of grouping.py that is not an import / def / class: (target, value).
+    (Assignments to attributes — `X.__doc__ = …` — are listed with their dotted target.)  The model
+    of Group mode has NO state outside the accumulator tree: a module-level table is state."""
+    out = []
+    for n in tree.body:
+        if isinstance(n, ast.Assign):
+            for t in n.targets:
+                tgt = ast.unparse(t)
+                if tgt.endswith('.__doc__'):
+                    continue
+                out.append((tgt, ast.unparse(n.value)))
+        elif isinstance(n, (ast.AnnAssign, ast.AugAssign)):
+            out.append((ast.unparse(n.target), ast.unparse(n.value) if n.value is not None else ''))
+        elif isinstance(n, (ast.Import, ast.ImportFrom, ast.FunctionDef, ast.ClassDef)):
+            continue
+        elif isinstance(n, ast.Expr) and isinstance(n.value, ast.Constant):
+            continue                                   # docstring
+        else:
+            out.append(('<statement>', ast.unparse(n)[:80]))
+    return out
+
+
+def _global_stmts(tree):
+    """`global` / `nonlocal` statements anywhere in grouping.py (none: nothing rebinds module state)"""
+    return [ast.unparse(n) for n in ast.walk(tree) if isinstance(n, (ast.Global, ast.Nonlocal))]
+
+
+def _t_arith(ctx, P):
+    """the arithmetic branch of `_t_eval` (glom/core.py): (operator character, statement) per arm of
+    the `if op == '+' … elif op == '_'` chain.  The model computes `cur = cur <op> arg` — a NEW value;
+    an augmented assignment would change the operand (an item of the caller's target) in place."""
+    core = ctx['src_tree']('core.py')
+    fn = ctx['find_def'](core, '_t_eval')
+    if fn is None:
+        P.add('_t_eval not found')
+        return []
+
+    def is_op_test(test):
+        return (isinstance(test, ast.Compare) and isinstance(test.left, ast.Name) and test.left.id == 'op'
+                and len(test.ops) == 1 and isinstance(test.ops[0], ast.Eq)
+                and isinstance(test.comparators[0], ast.Constant) and isinstance(test.comparators[0].value, str))
+
+    for n in ast.walk(fn):
+        if isinstance(n, ast.If) and is_op_test(n.test) and n.test.comparators[0].value == '+':
+            rows = []
+            cur = n
+            while True:
+                if not is_op_test(cur.test):
+                    P.add('_t_eval arithmetic chain: unrecognised test %s' % ast.unparse(cur.test))
+                    return []
+                rows.append((cur.test.comparators[0].value, '; '.join(ast.unparse(b) for b in cur.body)))
+                if len(cur.orelse) == 1 and isinstance(cur.orelse[0], ast.If):
+                    cur = cur.orelse[0]
+                elif not cur.orelse:
+                    break
+                else:
+                    P.add('_t_eval arithmetic chain: unexpected else')
+                    return []
+            return rows
+    P.add('_t_eval arithmetic chain not found')
+    return []
